@@ -19,6 +19,7 @@ THEOREMS = [
     'PbBss.C02.logLik_method',
     'PbBss.C02.sph_mstep_Q',
     'PbBss.C02.diag_mstep_Q',
+    'PbBss.C02.full_mstep_Q',
     'PbBss.C02.watson_mstep_Q',
     'PbBss.C02.watson_tangent_of_convex',
     'PbBss.C02.gaussian_full_crux',
@@ -29,6 +30,7 @@ THEOREMS = [
     'PbBss.C02.cacg_logPdf_is_density',
     'PbBss.C02.em_monotone_gmm_spherical',
     'PbBss.C02.em_monotone_gmm_diagonal',
+    'PbBss.C02.em_monotone_gmm_full',
     'PbBss.C02.em_monotone_cwmm',
     'PbBss.C02.em_monotone_cacgmm',
 ]
@@ -39,8 +41,10 @@ ASSUMPTIONS = [
     "maximal), Watson concentration = exact inverse of the hypergeometric ratio of a convex log-normaliser (TangentAt); the code's "
     "spline only approximates it (error measured in the correspondence run)",
     "with a saliency the monitored quantity is the saliency-weighted log-likelihood (DESIGN.md 5c)",
-    "full-covariance GMM and GCACGMM: the M-step inequality is proved (matrix-level crux, product-family lemma) but those two "
-    "families are not part of the executable EM model; they are covered by the search on the real code",
+    "sklearn's precision-Cholesky routine is an external with the contract PcholOk (upper triangular P, positive diagonal, "
+    "(P P^T) Sigma = 1, log-det = sum log P_dd); the driver uses a Cholesky routine of its own on Float",
+    "GCACGMM: the M-step inequality is proved for the two-stream product family (product_mstep_Q), but GCACGMM is not an instance "
+    "of the executable EM model; its trajectories are covered by the search on the real code",
 ]
 
 from pb_bss.distribution import CACGMMTrainer  # noqa: E402
